@@ -45,7 +45,7 @@ fn arena() -> &'static mut [u8; ARENA] {
 pub enum SSpec {
     /// initial length, spare capacity
     Vec(usize, usize),
-    /// representation (0 inline, 1 inline with front offset, 2 shared), initial length, spare capacity
+    /// representation (0 inline, 1 inline with front offset, 2 shared, 3 shared + sole owner + front offset + room behind the window), initial length, spare capacity
     BytesMut(u8, usize, usize),
     Slice(usize),
     Uninit(usize),
@@ -136,6 +136,15 @@ impl Builder {
                         m.extend_from_slice(&[0x5a, 0x5a]);
                         m.extend_from_slice(&d);
                         m.advance(2);
+                        m
+                    }
+                    3 => {
+                        // shared representation, sole owner again, front offset 2, and 3 more bytes of the vector behind the window
+                        let mut m = BytesMut::with_capacity(init + spare + 5);
+                        m.extend_from_slice(&[0x5a, 0x5a]);
+                        m.extend_from_slice(&d);
+                        drop(m.split_to(2));
+                        drop(m.split_off(init + spare));
                         m
                     }
                     _ => {
@@ -872,7 +881,7 @@ pub fn targets(rich: bool) -> Vec<SSpec> {
     for init in [0usize, 2] {
         for spare in [0usize, 1, 3, 20] {
             wrap1(&SSpec::Vec(init, spare), None, &mut out);
-            for rep in 0..3u8 {
+            for rep in 0..4u8 {
                 wrap1(&SSpec::BytesMut(rep, init, spare), None, &mut out);
             }
         }
